@@ -21,5 +21,6 @@ impl<W: io::Write> WriteSpecImpl for CountingWriter<W> {
     open spec fn sink(&self) -> Seq<u8> { self.wtr.sink() }
     open spec fn wf(&self) -> bool { self.cw_wf() }
     open spec fn anchor(&self) -> nat { (self.wtr.sink().len() - self.cnt) as nat }
+    open spec fn flushed(&self) -> bool { self.wtr.flushed() }
 }
 
